@@ -8,16 +8,16 @@ import session
 REGIMES = [
     # (name, document builder(n) -> text, path to the parent model, raw attr, value spec builder(i))
     ('open.currencies', lambda n: '2000-01-01 open Assets:A' + (' ' + ', '.join(['USD', 'EUR', 'GBP', 'JPY'][:n]) if n else '') + ' "STRICT"\n',
-     ['raw_directives_with_comments', 0], 'raw_currencies', lambda i: {'t': 'tok', 'cls': 'Currency', 'v': {'t': 'lit', 'v': 'N' + 'XYZ'[i]}}),
+     ['raw_directives_with_comments', 0], 'raw_currencies', lambda i: {'t': 'tok', 'cls': 'Currency', 'v': {'t': 'lit', 'v': 'N' + 'XYZW'[i % 4]}}),
     ('txn.tags_links', lambda n: '2000-01-01 * "x"' + ''.join(' ' + t for t in ['#a', '^b', '#c', '^d'][:n]) + ' ; c\n',
-     ['raw_directives_with_comments', 0], 'raw_tags_links', lambda i: {'t': 'tok', 'cls': ['Tag', 'Link', 'Tag'][i], 'v': {'t': 'lit', 'v': 'n' + 'xyz'[i]}}),
+     ['raw_directives_with_comments', 0], 'raw_tags_links', lambda i: {'t': 'tok', 'cls': ['Tag', 'Link', 'Tag', 'Link'][i % 4], 'v': {'t': 'lit', 'v': 'n' + 'xyzw'[i % 4]}}),
     ('file.directives', lambda n: '; head\n\n' + '\n'.join(['2000-01-0%d close Assets:A%d\n' % (k + 1, k) for k in range(n)]) + '\n',
      [], 'raw_directives_with_comments', lambda i: {'t': 'dir', 'text': '2001-01-0%d open Assets:N%d\n' % (i + 1, i)}),
     ('txn.postings', lambda n: '2000-01-01 *\n  aa: 1\n' + ''.join('  Assets:P%d  %d USD\n' % (k, k) for k in range(n)) + '2000-01-02 close Assets:Z\n',
      ['raw_directives_with_comments', 0], 'raw_postings_with_comments', lambda i: {'t': 'posting', 'acc': 'Assets:N%d' % i, 'num': '1', 'cur': 'EUR', 'indent': '  '}),
     ('cost.components', lambda n: '2000-01-01 *\n  Assets:A  1 USD {' + ', '.join(['2 EUR', '2000-01-01', '"l"', '*'][:n]) + '} @ 3 GBP\n',
      ['raw_directives_with_comments', 0, 'raw_postings_with_comments', 0, 'raw_cost', 'raw_cost'], 'raw_components',
-     lambda i: [{'t': 'tok', 'cls': 'EscapedString', 'v': {'t': 'lit', 'v': 'q'}}, {'t': 'tok', 'cls': 'Date', 'v': {'t': 'date', 'v': [2002, 2, 2]}}, {'t': 'default', 'cls': 'Asterisk'}][i]),
+     lambda i: [{'t': 'tok', 'cls': 'EscapedString', 'v': {'t': 'lit', 'v': 'q'}}, {'t': 'tok', 'cls': 'Date', 'v': {'t': 'date', 'v': [2002, 2, 2]}}, {'t': 'default', 'cls': 'Asterisk'}, {'t': 'tok', 'cls': 'Currency', 'v': {'t': 'lit', 'v': 'GBP'}}][i % 4]),
 ]
 
 
